@@ -26,7 +26,7 @@ def affine_case(rng, kind, variant):
     """returns (problem, exact(x,y)->value in the file's units, derived dict)"""
     B = Builder(kind)
     p = B.p
-    axi = variant in ("axi", "axi-convection")
+    axi = variant in ("axi", "axi-convection", "axi-series")
     p["problemtype"] = "axisymmetric" if axi else "planar"
     p["units"] = rng.choice(femgen.UNITS)
     p["depth"] = rng.choice([1.0, 2.0, 5.0])
@@ -38,19 +38,25 @@ def affine_case(rng, kind, variant):
     y0 = rng.choice([-1.0, 0.0])
     d = mesh_diameter(W * H / rng.choice([40, 120]))
     u = UNIT_M[p["units"]]
-    two = variant == "series"
+    two = variant in ("series", "axi-series")
+    # direction of the field: planar plates / series cases run along x or along y; axisymmetric ones along z
+    along = "y" if axi else (rng.choice(["x", "y"]) if variant in ("plates", "series") else "x")
     V0, V1 = rng.choice([0.0, 5.0, -2.0]), rng.choice([10.0, 3.0, 7.5])
-    info = dict(kind=kind, variant=variant)
+    info = dict(kind=kind, variant=variant, along=along)
+    # both materials anisotropic, with different ratios between their two directions
+    a1x, a1y = rng.choice([(1.0, 5.0), (2.0, 1.0), (4.0, 3.0), (2.0, 2.0)])
+    a2x, a2y = rng.choice([(3.0, 8.0), (8.0, 2.0), (6.0, 6.0)])
     if kind == "fee":
-        e1, e2 = rng.choice([1.0, 2.0, 4.0]), rng.choice([3.0, 8.0])
-        m1 = B.prop("blockprops", name="m1", ex=e1, ey=rng.choice([1.0, 5.0]) if not axi else e1, qv=0.0)
-        m2 = B.prop("blockprops", name="m2", ex=e2, ey=e2, qv=0.0)
+        m1 = B.prop("blockprops", name="m1", ex=a1x, ey=a1y, qv=0.0)
+        m2 = B.prop("blockprops", name="m2", ex=a2x, ey=a2y, qv=0.0)
         bA = B.prop("bdryprops", name="A", type=0, V=V0)
         bB = B.prop("bdryprops", name="B", type=0, V=V1)
+        e1, e2 = (a1x, a2x) if along == "x" else (a1y, a2y)
     elif kind == "feh":
-        e1, e2 = rng.choice([1.0, 2.0, 40.0]), rng.choice([3.0, 8.0])
-        m1 = B.prop("blockprops", name="m1", kx=e1, ky=rng.choice([1.0, 5.0]) if not axi else e1, kt=0.0, qv=0.0)
-        m2 = B.prop("blockprops", name="m2", kx=e2, ky=e2, kt=0.0, qv=0.0)
+        if rng.random() < 0.3:
+            a1x, a1y = 40.0, 25.0
+        m1 = B.prop("blockprops", name="m1", kx=a1x, ky=a1y, kt=0.0, qv=0.0)
+        m2 = B.prop("blockprops", name="m2", kx=a2x, ky=a2y, kt=0.0, qv=0.0)
         V0, V1 = 300.0 + V0, 300.0 + V1
         bA = B.prop("bdryprops", name="A", type=0, Tset=V0)
         if variant in ("convection", "axi-convection"):
@@ -59,27 +65,46 @@ def affine_case(rng, kind, variant):
             info.update(h=hh, Tinf=Tinf)
         else:
             bB = B.prop("bdryprops", name="B", type=0, Tset=V1)
+        e1, e2 = (a1x, a2x) if along == "x" else (a1y, a2y)
     else:
-        e1, e2 = rng.choice([1.0, 10.0]), rng.choice([100.0, 5.0])
-        m1 = B.prop("blockprops", name="m1", mu_x=rng.choice([1.0, 3.0]), mu_y=e1)
-        m2 = B.prop("blockprops", name="m2", mu_x=e2, mu_y=e2)
+        a2x, a2y = rng.choice([(100.0, 100.0), (5.0, 50.0), (60.0, 7.0)])
+        m1 = B.prop("blockprops", name="m1", mu_x=a1x, mu_y=a1y)
+        m2 = B.prop("blockprops", name="m2", mu_x=a2x, mu_y=a2y)
         V0, V1 = V0 * 1e-3, V1 * 1e-3
         bA = B.prop("bdryprops", name="A", type=0, A_0=V0)
         bB = B.prop("bdryprops", name="B", type=0, A_0=V1)
-    if axi:
-        # field along z between the plates z = y0 and z = y0 + H
+        # A varying along x: B_y = -dA/dx, H_y = B_y / mu_y;  along y: B_x = dA/dy, H_x = B_x / mu_x
+        e1, e2 = (a1y, a2y) if along == "x" else (a1x, a2x)
+    if along == "y":
+        # plates at y = y0 and y = y0 + H (axisymmetric: field along z)
         B.rect(x0, y0, x0 + W, y0 + H, dict(b=dict(bdry=bA), t=dict(bdry=bB), l={}, r={}))
-        B.label(x0 + W * 0.3, y0 + H * 0.4, m1, maxarea=d)
-        if variant == "axi-convection":
-            # the temperature rise (0.1 K) is tiny against the level (300 K): ask for a tighter solve so that
-            # "to solver precision" (relative to the level) resolves it
-            p["precision"] = 1e-10
-            # disk / washer cooled on its top face (an edge along which r varies): k dT/dz = -h (T(top) - Tinf), T linear in z
-            ga = -info["h"] * (V0 - info["Tinf"]) / (e1 + info["h"] * H * u)
-            exact = lambda x, y: V0 + ga * (y - y0) * u
+        if two:
+            ym = y0 + H * rng.choice([0.25, 0.5, 0.625])
+            a = B.point(x0 + W, ym); b = B.point(x0, ym)
+            segs = p["segments"]
+            bot, right, top, left = segs[0], segs[1], segs[2], segs[3]
+            p["segments"] = [bot, dict(right, n1=a), dict(right, n0=a), top, dict(left, n1=b), dict(left, n0=b)]
+            B.seg(a, b)
+            B.label(x0 + W * 0.3, y0 + (ym - y0) * 0.5, m1, maxarea=d)
+            B.label(x0 + W * 0.6, ym + (y0 + H - ym) * 0.5, m2, maxarea=d)
+            c1, c2 = (e1, e2) if kind != "fem" else (1.0 / e1, 1.0 / e2)
+            L1, L2 = ym - y0, y0 + H - ym
+            g1 = (V1 - V0) / (L1 + L2 * c1 / c2)
+            g2 = g1 * c1 / c2
+            exact = lambda x, y: V0 + g1 * (y - y0) if y <= ym else V0 + g1 * L1 + g2 * (y - ym)
         else:
-            exact = lambda x, y: V0 + (V1 - V0) * (y - y0) / H
-            info.update(E=(V1 - V0) / (H * u), vol=math.pi * ((x0 + W) ** 2 - x0 ** 2) * H * u ** 3, eps=e1)
+            B.label(x0 + W * 0.3, y0 + H * 0.4, m1, maxarea=d)
+            if variant == "axi-convection":
+                # the temperature rise (0.1 K) is tiny against the level (300 K): ask for a tighter solve so that
+                # "to solver precision" (relative to the level) resolves it
+                p["precision"] = 1e-10
+                # disk / washer cooled on its top face (an edge along which r varies): k dT/dz = -h (T(top) - Tinf), T linear in z
+                ga = -info["h"] * (V0 - info["Tinf"]) / (e1 + info["h"] * H * u)
+                exact = lambda x, y: V0 + ga * (y - y0) * u
+            else:
+                exact = lambda x, y: V0 + (V1 - V0) * (y - y0) / H
+                vol = math.pi * ((x0 + W) ** 2 - x0 ** 2) * H * u ** 3 if axi else W * H * u * u * p["depth"] * u
+                info.update(E=(V1 - V0) / (H * u), vol=vol, eps=e1)
     else:
         B.rect(x0, y0, x0 + W, y0 + H, dict(l=dict(bdry=bA), r=dict(bdry=bB), b={}, t={}))
         if two:
@@ -91,7 +116,7 @@ def affine_case(rng, kind, variant):
             B.seg(a, b)
             B.label(x0 + (xm - x0) * 0.5, y0 + H * 0.3, m1, maxarea=d)
             B.label(xm + (x0 + W - xm) * 0.5, y0 + H * 0.6, m2, maxarea=d)
-            # series: flux continuous: e1 a1 = e2 a2 (for magnetics A: the normal derivative is weighted by 1/mu_y)
+            # series: flux continuous: e1 a1 = e2 a2 (for magnetics A: the normal derivative is weighted by 1/mu)
             c1, c2 = (e1, e2) if kind != "fem" else (1.0 / e1, 1.0 / e2)
             L1, L2 = xm - x0, x0 + W - xm
             g1 = (V1 - V0) / (L1 + L2 * c1 / c2)
@@ -109,7 +134,7 @@ def affine_case(rng, kind, variant):
             else:
                 exact = lambda x, y: V0 + (V1 - V0) * (x - x0) / W
                 info.update(E=(V1 - V0) / (W * u), vol=W * H * u * u * p["depth"] * u, eps=e1)
-    p["features"] = [kind, variant, p["units"], "smart%d" % p["dosmartmesh"]]
+    p["features"] = [kind, variant, "along-" + along, p["units"], "smart%d" % p["dosmartmesh"]]
     return p, exact, info
 
 
@@ -135,7 +160,7 @@ def check_affine(ctx, k, p, exact, info):
         i = max(range(len(nodes)), key=lambda i: abs(nodes[i][2] - vals[i]))
         return ("node %d at (%g,%g): solver returned %.12g, the exact linear solution is %.12g (mesh of %d nodes)"
                 % (i, nodes[i][0], nodes[i][1], nodes[i][2], vals[i], len(nodes)))
-    if kind == "fee" and "E" in info and info["variant"] != "series":
+    if kind == "fee" and "E" in info and info["variant"] not in ("series", "axi-series"):
         W = r["q2"][0]
         want = 0.5 * EO * info["eps"] * info["E"] ** 2 * info["vol"]
         if abs(W - want) > 1e-5 * max(abs(want), 1e-300) and abs(want) > 0:
@@ -259,7 +284,8 @@ def q_skin(ctx, p, ref, wd):
 def correspond(ctx):
     rng = ctx.rng
     plan = [("fee", "plates"), ("fee", "series"), ("fee", "axi"), ("feh", "plates"), ("feh", "convection"), ("feh", "axi"),
-            ("fem", "plates"), ("fem", "series"), ("feh", "series"), ("feh", "axi-convection"), ("feh", "axi-convection")]
+            ("fem", "plates"), ("fem", "series"), ("feh", "series"), ("feh", "axi-convection"), ("feh", "axi-convection"),
+            ("fee", "series"), ("fee", "axi-series"), ("feh", "axi-series"), ("fem", "series"), ("fee", "plates"), ("feh", "series")]
     if not ctx.quick():
         plan = plan * 6
     feats, samples, done = {}, [], 0
